@@ -434,7 +434,8 @@ def numeric_splice_probes():
                     out.append(b[:k] + o + b[k:])
                     out.append(b[:k + 1] + o + b[k + 1:])
                     out.append(b[:k] + o + b[k + 1:])
-        for n in (50, 310, 400, 4299, 4300, 4301, 5000, 20000):
+        for n in (50, 310, 400, 640, 641, 700, 1000, 4299, 4300, 4301, 5000,
+                  20000):
             for k, ch in enumerate(b):
                 if ch.isdigit():
                     out.append(b[:k] + ch * n + b[k + 1:])
